@@ -40,9 +40,32 @@ pub trait VV: Clone + MemSize + Sized + 'static {
     fn name() -> &'static str;
 }
 
-pub trait VS: BuildHasher + Clone + 'static {
+pub trait VS: BuildHasher + Clone + Sized + 'static {
     fn make(kind: HKind) -> Self;
     fn name() -> &'static str;
+    /// How a cache with this builder is constructed (the default builder goes
+    /// through the constructors that take no builder).
+    fn construct<K, V>(limit: usize, capacity: Option<usize>, kind: HKind) -> LruCache<K, V, Self> {
+        match capacity {
+            None => LruCache::with_hasher(limit, Self::make(kind)),
+            Some(c) => LruCache::with_capacity_and_hasher(limit, c, Self::make(kind)),
+        }
+    }
+}
+
+/// The crate's default hash builder, reached through `LruCache::new` and
+/// `LruCache::with_capacity`.
+impl VS for hashbrown::hash_map::DefaultHashBuilder {
+    fn make(_kind: HKind) -> Self { Default::default() }
+    fn name() -> &'static str { "defaulthasher" }
+    fn construct<K, V>(limit: usize, capacity: Option<usize>, _kind: HKind) -> LruCache<K, V, Self> {
+        match capacity {
+            None => LruCache::new(limit),
+            Some(c) => {
+                LruCache::with_capacity(limit, c)
+            },
+        }
+    }
 }
 
 /// Key without drop glue (but with a `Clone` of its own: `gen` counts how
@@ -218,15 +241,19 @@ impl<K: VK, V: VV, S: VS> Mini<K, V, S> {
             LimSel::Max => usize::MAX,
             LimSel::MaxMinus(d) => usize::MAX - d as usize,
         };
-        let hasher = S::make(cfg.hasher);
-        let cache = match cfg.capacity {
-            None => LruCache::with_hasher(limit, hasher),
-            Some(c) => LruCache::with_capacity_and_hasher(limit, c as usize, hasher),
-        };
-        Mini {
+        let cache: LruCache<K, V, S> = S::construct(limit, cfg.capacity.map(|c| c as usize), cfg.hasher);
+        let cap0 = cache.capacity();
+        let max0 = cache.max_size();
+        let mut m = Mini {
             cache: Some(cache), model: Model::new(limit, cfg.universe as usize), cfg: cfg.clone(), e0,
             step: 0, next_tag: 1, fails: vec![], leaks_allowed: false, steps: 0, events: BTreeSet::new(),
+        };
+        // what the constructors promise
+        if let Some(c) = cfg.capacity {
+            mk!(m, cap0 >= c as usize, ["C13"], "ctor-capacity", "constructed with capacity {} but capacity() is {}", c, cap0);
         }
+        mk!(m, max0 == limit, ["C01"], "ctor-limit", "constructed with max_size {} but max_size() is {}", limit, max0);
+        m
     }
 
     pub fn variant_name() -> String {
@@ -779,8 +806,7 @@ impl<K: VK, V: VV, S: VS> Mini<K, V, S> {
                 self.leaks_allowed = true;
                 for k in taken_k { std::mem::forget(k); }
                 for v in taken_v { std::mem::forget(v); }
-                let hasher = S::make(self.cfg.hasher);
-                self.cache = Some(LruCache::with_hasher(limit, hasher));
+                self.cache = Some(S::construct(limit, None, self.cfg.hasher));
                 self.model.clear();
                 return;
             },
@@ -811,8 +837,7 @@ impl<K: VK, V: VV, S: VS> Mini<K, V, S> {
             return;
         }
         if consuming {
-            let hasher = S::make(self.cfg.hasher);
-            self.cache = Some(LruCache::with_hasher(limit, hasher));
+            self.cache = Some(S::construct(limit, None, self.cfg.hasher));
             self.model.clear();
             if forget { self.leaks_allowed = true; } else { self.expect_dropped(&unyielded, "not consumed from owning iterator"); }
             self.events.insert(format!("into-{}", if forget { "forget" } else { "drop" }));
@@ -868,7 +893,8 @@ impl<K: VK, V: VV, S: VS> Mini<K, V, S> {
     }
 }
 
-pub const VARIANTS: [&str; 7] = [
+pub const VARIANTS: [&str; 9] = [
+    "trackedkey+trackedval+defaulthasher", "plainkey+plainval+defaulthasher",
     "trackedkey+plainval+statefulhasher", "plainkey+trackedval+statefulhasher", "plainkey+plainval+statefulhasher",
     "trackedkey+trackedval+zsthasher", "trackedkey+plainval+zsthasher", "plainkey+trackedval+zsthasher", "plainkey+plainval+zsthasher",
 ];
@@ -891,6 +917,8 @@ fn run_one<K: VK, V: VV, S: VS>(case: &Case) -> VariantOutcome {
 
 pub fn run_variant(name: &str, case: &Case) -> Option<VariantOutcome> {
     Some(match name {
+        "trackedkey+trackedval+defaulthasher" => run_one::<TKey, TVal, hashbrown::hash_map::DefaultHashBuilder>(case),
+        "plainkey+plainval+defaulthasher" => run_one::<PKey, PVal, hashbrown::hash_map::DefaultHashBuilder>(case),
         "trackedkey+plainval+statefulhasher" => run_one::<TKey, PVal, VHasher>(case),
         "plainkey+trackedval+statefulhasher" => run_one::<PKey, TVal, VHasher>(case),
         "plainkey+plainval+statefulhasher" => run_one::<PKey, PVal, VHasher>(case),
